@@ -125,20 +125,23 @@ def verifier_with_house_rule(rng, fcp):
     others = rng.sample(sorted(CATEGORY_NODES), rng.randint(0, 3))
     calls = []
 
-    def passing(self, f, node):
-        return Ok(())
-
-    def rejecting(self, f, node):
-        calls.append(1)
-        return error(f"house rule: node {m} of category {cat} is not allowed") if len(calls) == m + 1 else Ok(())
+    # every rule is a fresh closure of one factory, as a plug-in's `forbid_struct_name("Legacy")`, `forbid_struct_name("Old")` would be:
+    # same module, same qualified name, different behaviour
+    def rule(reject_at):
+        def check(self, f, node):
+            if reject_at is None:
+                return Ok(())
+            calls.append(1)
+            return error(f"house rule: node {m} of category {cat} is not allowed") if len(calls) == reject_at + 1 else Ok(())
+        return check
     for c in others:
-        register(v, c)(passing)
+        register(v, c)(rule(None))
     for _ in range(before):
-        register(v, cat)(passing)
+        register(v, cat)(rule(None))
     position = len(v.checks[cat])
-    register(v, cat)(rejecting)
+    register(v, cat)(rule(m))
     for _ in range(after):
-        register(v, cat)(passing)
+        register(v, cat)(rule(None))
     return v, f"house-rule:{cat}:position{position}:node{m}", count > 0
 
 
